@@ -29,6 +29,9 @@ def run(repo, run, tier):
     # from the end they were added to (direction-aware)
     from .c09 import removal_index
     removal_index(repo, run, "C19.8")
+    # a time lookup on a dense trajectory is answered by DenseOutput.find_interval(_vec): the piece index must not wrap around
+    from .common import index_decrement
+    index_decrement(repo, run, "C19.9", DS, ["DenseOutput.find_interval", "DenseOutput.find_interval_vec"])
     length(repo, run)
 
 
